@@ -15,13 +15,16 @@ import numpy as np
 
 from mc.engine import core
 from mc.models import dsl
+from mc.engine.canon import canon_tree, np_tree, jsonable
 
 PROPERTY = 'C09'
 LEVEL = 'model_checking'
 RULE = ('Linen: every module tree with <= 3 children per node from explicit names {a, ab, b, bc, c} '
         '(so ab/c and a/bc occur), each node drawing 0-2 keys from <= 2 streams and 0-2 key-observing '
         'params, depth <= 2; x every permutation of sibling creation order x extra unrelated '
-        'sibling / stream / variable x both values of flax_fix_rng_separator x stream seeds; '
+        'sibling / stream / variable x both values of flax_fix_rng_separator x stream seeds; a stream '
+        'seeded at the top but not lifted into {remat, checkpoint, jit}(rngs=params | [params] | '
+        'DenyList(dropout)) x 5 bodies x outer draws: same keys as the params twin; '
         'NNX: BFS over histories (depth 4 quick / 6 thorough) on Rngs(seed, s1=, s2=) with actions '
         '{draw default/s1/missing, split_rngs (+ vmapped draws) + restore, context manager, only= '
         'filter, reseed, split/merge}; states = canonical per-stream (key, count), transitions = '
@@ -127,6 +130,7 @@ def units(tier, seed):
   for i in range(0, len(progs), step):
     us.append(dict(kind='linen', lo=i, hi=min(len(progs), i + step)))
   us.append(dict(kind='linen-fallback'))
+  us.append(dict(kind='linen-filtered'))
   # determinism and non-reuse under lifted jit / remat (clause shared with C05, family R)
   jb = [[['rng', 'dropout']], [['child', 'B', [['rng', 'dropout']], None, 1]],
         [['param', 'a', 's'], ['rng', 'dropout']]]
@@ -144,6 +148,8 @@ def run_unit(unit):
     _linen(res, unit)
   elif unit['kind'] == 'linen-fallback':
     _fallback(res)
+  elif unit['kind'] == 'linen-filtered':
+    _filtered(res)
   elif unit['kind'] == 'linen-jit':
     from mc.checks import c05
     c05._fam_R(res, unit)
@@ -283,6 +289,57 @@ def _fallback(res):
         res['nontrivial'].append(core.h(key))
         res['states'] += 1
   res['samples'].append(dict(kind='fallback'))
+
+
+def _filtered(res):
+  """A stream that is seeded at the top level but not lifted into a transform (rng filter
+  'params' only) is a missing stream inside it: draws fall back to the params stream there, at
+  the positions the params stream would be drawn, and still come from the stream outside."""
+  import jax
+  import jax.numpy as jnp
+  x = jnp.ones((2,), jnp.float32)
+  seeds = {'params': jax.random.key(1), 'dropout': jax.random.key(2)}
+  bodies = [(('rng', 'dropout'),), (('rng', 'dropout'), ('rng', 'dropout')),
+            (('rng', 'params'), ('rng', 'dropout')), (('param', 'p', 'k'), ('rng', 'dropout')),
+            (('child', 'B', (('rng', 'dropout'),), None, 1), ('rng', 'dropout'))]
+  swap = lambda b: tuple(
+    ('rng', 'params') if st == ('rng', 'dropout') else
+    (st[:2] + (swap(st[2]),) + st[3:] if st[0] == 'child' else st) for st in b)
+  for tname in ('remat', 'checkpoint', 'jit'):
+    for filt in ('params', ['params'], {'deny': 'dropout'}):
+      tc = dsl.tcls(tname, 'A', rngs=filt)
+      for body in bodies:
+        for outer_draw in (False, True):
+          pre = (('rng', 'dropout'),) if outer_draw else ()
+          d = pre + (('child', tc, body, 'a', 1),) + pre
+          dt = pre + (('child', tc, swap(body), 'a', 1),) + pre
+          key = f'{tname}|{filt!r}|{body!r}|{outer_draw}'
+          res['evals'] += 2
+          res['transitions'] += 1
+          try:
+            oa, va = dsl.make('A', d).init_with_output(seeds, x)
+          except Exception as e:  # noqa
+            core.violation(res, f'filtered-raises|{key}',
+                           f'drawing a stream that the transform does not lift raised '
+                           f'{type(e).__name__}: {e}'[:300] + ' instead of falling back to params',
+                           dict(transform=tname, rngs=jsonable(filt), body=dsl.tolist(body)))
+            continue
+          ob, vb = dsl.make('A', dt).init_with_output(seeds, x)
+          ka = [tuple(np.asarray(k).ravel().tolist()) for k in oa['k']]
+          kb = [tuple(np.asarray(k).ravel().tolist()) for k in ob['k']]
+          if ka != kb or canon_tree(np_tree(va)) != canon_tree(np_tree(vb)):
+            core.violation(res, f'filtered|{key}',
+                           'inside a transform that lifts only params, a draw from another stream '
+                           'does not yield what the params stream yields at that position',
+                           dict(transform=tname, rngs=jsonable(filt), body=dsl.tolist(body)),
+                           observed=ka, expected=kb)
+          if len(set(ka)) != len(ka):
+            core.violation(res, f'filtered-reuse|{key}', 'a key was handed out twice',
+                           dict(transform=tname, body=dsl.tolist(body)), observed=ka)
+          core.outcome(res, f'filtered:{tname}:ok')
+          res['nontrivial'].append(core.h(key))
+          res['states'] += 1
+  res['samples'].append(dict(kind='filtered'))
 
 
 def _order(d, seeds, fix):
